@@ -19,7 +19,7 @@ Import ListNotations.
 Require Import MV.Lib.Base MV.C16.Gen MV.C16.Model MV.C16.Checkers.
 Require Import MV.C16.Proofs_Base MV.C16.Proofs_UF MV.C16.Proofs_Struct MV.C16.Proofs_Rebuild.
 Require Import MV.C16.Proofs_Prune MV.C16.Proofs_Cotree MV.C16.Proofs_Top MV.C16.Proofs_Examples MV.C16.Proofs_RepIndep.
-Require Import MV.C16.Proofs_Ring MV.C16.Proofs_Border MV.C16.Proofs_SingBorder MV.C16.Proofs_CheckRing.
+Require Import MV.C16.Proofs_Ring MV.C16.Proofs_Border MV.C16.Proofs_SingBorder MV.C16.Proofs_CheckRing MV.C16.Proofs_Dual.
 Open Scope Z_scope.
 
 (* 1. FULL, for ANY face list, edge table and cut set: the rebuilt mesh has the input faces in the same order with
@@ -70,6 +70,21 @@ Theorem C16_cut0_is_complement : forall edges ev e,
   In e (cut0 edges ev) <-> (0 <= e < zlen edges) /\ ~ In e ev.
 Proof. exact cut0_spec. Qed.
 Print Assumptions C16_cut0_is_complement.
+
+(* 2b. FULL (about the generated relaxation tests of BOTH dual-tree builders; the tree itself is validated per run,
+       not recomputed): a face settled before the popped one (distance not larger) keeps its distance and its parent
+       edge `path[f]` for every dual edge length d >= 0, in particular d = 0 (adjacent faces with the same
+       barycentre: two-sided flat sheets, coincident vertices); an overwrite strictly decreases the distance.
+       Distances are floats in mouette; Z stands for their order.  Non-vacuity: relax_nontrivial. *)
+Theorem C16_dual_relaxation_keeps_settled_faces :
+  (forall old cur d e, 0 <= d -> fst old <= cur ->
+     relax_step relax_dual_no_features old cur d e = old /\ relax_step relax_dual_with_features old cur d e = old) /\
+  (forall old cur d e, relax_step relax_dual_no_features old cur d e <> old ->
+     fst (relax_step relax_dual_no_features old cur d e) < fst old) /\
+  (forall old cur d e, relax_step relax_dual_with_features old cur d e <> old ->
+     fst (relax_step relax_dual_with_features old cur d e) < fst old).
+Proof. exact dual_relaxation_strict. Qed.
+Print Assumptions C16_dual_relaxation_keeps_settled_faces.
 
 (* 3. FULL, pruning invariant, for ANY edge table, singular set and starting set: the queue loop ends within its
       fuel; what it did is a sequence of removals of NON-SINGULAR leaves; no non-singular leaf is left (vertices
